@@ -23,7 +23,8 @@ fn r1(a: &[f64], b: f64) -> Aff {
 
 fn gens(n: usize, o: usize, tier: Tier) -> (TreeGen, TreeGen) {
     let preds_a: Vec<Aff> = if n == 1 { vec![r1(&[1.0], 0.0), r1(&[-1.0], -1.0), r1(&[1.0], 2.0)] } else { vec![r1(&[1.0, 0.0], 0.0), r1(&[1.0, -1.0], 0.0), r1(&[-1.0, 0.0], -1.0)] };
-    let preds_b: Vec<Aff> = if n == 1 { vec![r1(&[1.0], 0.0), r1(&[1.0], 1.0), r1(&[-1.0], -2.0)] } else { vec![r1(&[1.0, 0.0], 0.0), r1(&[0.0, 1.0], 0.0), r1(&[1.0, 1.0], 1.0)] };
+    // the right operand has rows that are not of unit length and whose scaled copies would not be exact in f64
+    let preds_b: Vec<Aff> = if n == 1 { vec![r1(&[1.0], 0.0), r1(&[3.0], 1.0), r1(&[-1.0], -2.0)] } else { vec![r1(&[1.0, 0.0], 0.0), r1(&[0.0, 1.0], 0.0), r1(&[1.0, 2.0], 1.0)] };
     let m = |rows: &[&[f64]], b: &[f64]| Aff::new(rows.iter().map(|r| r.to_vec()).collect(), b.to_vec());
     let (ta, tb): (Vec<Aff>, Vec<Aff>) = match (n, o) {
         (1, 1) => (vec![r1(&[1.0], 0.0), r1(&[-2.0], 1.0), r1(&[0.0], 3.0)], vec![r1(&[2.0], -1.0), r1(&[0.5], 2.0), r1(&[-1.0], 1.0)]),
